@@ -326,8 +326,12 @@ func runC20(c *Ctx) {
 				continue
 			}
 			nU++
-			// primary is assigned under id == shards.LeaderId
+			// primary is assigned under id == shards.LeaderId: every non-constant value that flows into the
+			// primary argument enters (through the loop's φ) on an edge dominated by that test
 			ok := false
+			if leaderOnly, any := flowsOnlyUnderLeaderTest(p, callCommon(call).Args[1], 0); any && leaderOnly {
+				ok = true
+			}
 			eachInstr(fn, func(in ssa.Instruction) {
 				bo, isB := in.(*ssa.BinOp)
 				if !isB || bo.Op != token.EQL {
@@ -424,4 +428,39 @@ func runC20(c *Ctx) {
 			c.Ok("R6", "endpoint."+f+":immutable", 0, "never written outside the constructor")
 		}
 	}
+}
+
+// flowsOnlyUnderLeaderTest: v is a φ-web (loop-carried variable); returns whether every non-constant
+// value enters it on an edge dominated by the true outcome of `id == shards.LeaderId`, and whether any
+// non-constant value enters at all.
+func flowsOnlyUnderLeaderTest(p *Program, v ssa.Value, depth int) (only bool, any bool) {
+	ph, ok := v.(*ssa.Phi)
+	if !ok || depth > 3 {
+		return false, false
+	}
+	only = true
+	seen := map[ssa.Value]bool{ph: true}
+	var walk func(ph *ssa.Phi, d int)
+	walk = func(ph *ssa.Phi, d int) {
+		for i, e := range ph.Edges {
+			if _, isC := e.(*ssa.Const); isC || seen[e] {
+				continue
+			}
+			if inner, isPhi := e.(*ssa.Phi); isPhi && d < 3 {
+				seen[inner] = true
+				walk(inner, d+1)
+				continue
+			}
+			any = true
+			pred := ph.Block().Preds[i]
+			cs := p.CondsAtEdge(pred, ph.Block())
+			if !hasCond(cs, func(k Cond) bool {
+				return k.Pol && k.Atom.Op == "EQ" && (k.Atom.Args[0].IsField("LeaderId", nil) || k.Atom.Args[1].IsField("LeaderId", nil))
+			}) {
+				only = false
+			}
+		}
+	}
+	walk(ph, 0)
+	return only, any
 }
